@@ -9,8 +9,10 @@ package nebula
 // nonce it sealed with; at the end: the order in which nonces reached the AEAD.
 
 import (
+	"context"
 	"encoding/json"
 	"fmt"
+	"log/slog"
 	"net/netip"
 	"os"
 	"sync"
@@ -112,6 +114,25 @@ func TestVerif_C13(t *testing.T) {
 	}
 }
 
+// c13LogGate is the logger of the Interface under test: a sender that gives up a relayed send because the out buffer is too
+// small reports that through the logger; the handler parks it there (announced on the cipher gate's arrival channel) so that
+// the harness can let other senders run between the reservation of the counter and the end of the abandoned send.
+type c13LogGate struct {
+	gate *dpGate
+}
+
+func (h *c13LogGate) Enabled(context.Context, slog.Level) bool { return true }
+func (h *c13LogGate) WithAttrs([]slog.Attr) slog.Handler       { return h }
+func (h *c13LogGate) WithGroup(string) slog.Handler            { return h }
+func (h *c13LogGate) Handle(_ context.Context, r slog.Record) error {
+	if r.Message == "SendVia out buffer not large enough for relay" && h.gate != nil {
+		a := &dpArrival{release: make(chan struct{}), n: ^uint64(0)}
+		h.gate.arrive <- a
+		<-a.release
+	}
+	return nil
+}
+
 type c13Sender struct {
 	done    chan struct{}
 	arrival *dpArrival
@@ -134,7 +155,7 @@ func c13Replay(t *testing.T, res *vResult, gr *vGraph, file string, pi int, path
 	_ = json.Unmarshal(init["path"], &paths)
 
 	w := &c13Writer{}
-	f := &Interface{l: test.NewLogger(), messageMetrics: newMessageMetrics(), writers: []udp.Conn{w}}
+	f := &Interface{l: slog.New(&c13LogGate{gate: gate}), messageMetrics: newMessageMetrics(), writers: []udp.Conn{w}}
 	f.connectionManager = &connectionManager{relayUsed: map[uint32]struct{}{}, relayUsedLock: &sync.RWMutex{}, l: f.l}
 	hostinfo := &HostInfo{vpnAddrs: []netip.Addr{netip.MustParseAddr("10.0.0.2")}, ConnectionState: ci, remoteIndexId: 2000}
 	remote := netip.MustParseAddrPort("192.0.2.1:4242")
@@ -152,6 +173,11 @@ func c13Replay(t *testing.T, res *vResult, gr *vGraph, file string, pi int, path
 			out := make([]byte, mtu)
 			if paths[g] == "fast" {
 				f.sendInsideEncrypt(hostinfo, ci, []byte("payload-"+g), out, nb)
+				return
+			}
+			if paths[g] == "drop" {
+				// a relayed payload that does not fit the out buffer: the counter is reserved, then the send is given up
+				f.SendVia(hostinfo, relay, make([]byte, 200), nb, make([]byte, 0, 64), false, 0)
 				return
 			}
 			switch variant {
@@ -207,6 +233,21 @@ func c13Replay(t *testing.T, res *vResult, gr *vGraph, file string, pi int, path
 			close(s.arrival.release)
 			s.arrival = nil
 			<-s.done
+		case "Abandon":
+			s := senders[g]
+			if s == nil {
+				t.Fatalf("verif: Abandon of unknown sender")
+			}
+			if s.arrival == nil {
+				drift(fmt.Sprintf("step %d: sender %s finished without announcing that it gives the send up", si, g))
+				continue
+			}
+			if s.arrival.n != ^uint64(0) {
+				drift(fmt.Sprintf("step %d: sender %s reached the AEAD with counter %d, the specification gives the send up", si, g, s.arrival.n))
+			}
+			close(s.arrival.release)
+			s.arrival = nil
+			<-s.done
 		case "Pin":
 			t.Fatalf("verif: fine-grain action in a gate-grain graph")
 		}
@@ -219,7 +260,7 @@ func c13Replay(t *testing.T, res *vResult, gr *vGraph, file string, pi int, path
 		if s := senders[g]; s != nil && s.arrival != nil {
 			var mine map[string]int
 			_ = json.Unmarshal(post["mine"], &mine)
-			if want := c13Real(mine[g], ceiling); s.arrival.n != want {
+			if want := c13Real(mine[g], ceiling); s.arrival.n != want && s.arrival.n != ^uint64(0) {
 				drift(fmt.Sprintf("step %d: sender %s reached the AEAD with counter %d, specification reserved %d", si, g, s.arrival.n, want))
 			}
 			if e.Act == "ReserveSafeRefuse" {
@@ -411,7 +452,7 @@ func c13Stress(t *testing.T, res *vResult, lockNeeded, fips bool, newCS func() *
 			ci.messageCounter.Store(base)
 		}
 		w := &c13Writer{}
-		f := &Interface{l: test.NewLogger(), messageMetrics: newMessageMetrics(), writers: []udp.Conn{w}}
+		f := &Interface{l: slog.New(&c13LogGate{}), messageMetrics: newMessageMetrics(), writers: []udp.Conn{w}}
 		f.connectionManager = &connectionManager{relayUsed: map[uint32]struct{}{}, relayUsedLock: &sync.RWMutex{}, l: f.l}
 		hostinfo := &HostInfo{vpnAddrs: []netip.Addr{netip.MustParseAddr("10.0.0.2")}, ConnectionState: ci, remoteIndexId: 2000}
 		remote := netip.MustParseAddrPort("192.0.2.1:4242")
@@ -427,6 +468,11 @@ func c13Stress(t *testing.T, res *vResult, lockNeeded, fips bool, newCS func() *
 				out := make([]byte, mtu)
 				<-startc
 				for k := 0; k < 120; k++ {
+					if (g+k)%16 == 7 {
+						// a relayed payload too large for its buffer: reserved counter, abandoned send
+						f.SendVia(hostinfo, relay, make([]byte, 200), nb, make([]byte, 0, 64), false, 0)
+						continue
+					}
 					switch (g + k) % 4 {
 					case 0, 1:
 						f.sendInsideEncrypt(hostinfo, ci, []byte("p"), out, nb)
